@@ -37,8 +37,9 @@ class Record:
 
 
 class ClassRef:
-    def __init__(self, name):
+    def __init__(self, name, kind="class"):
         self.name = name
+        self.kind = kind
 
 
 class ModuleRef:
@@ -189,7 +190,9 @@ class Interp:
         elif isinstance(st, ast.Assert):
             if not self.truth(self.eval(st.test, env)):
                 raise Raised("AssertionError", ())
-        elif isinstance(st, (ast.Pass, ast.Global, ast.Nonlocal)):
+        elif isinstance(st, ast.Global):
+            env.setdefault("__globalnames__", set()).update(st.names)
+        elif isinstance(st, (ast.Pass, ast.Nonlocal)):
             return
         elif isinstance(st, ast.FunctionDef):
             env[st.name] = Closure(st, env, self)
@@ -199,7 +202,10 @@ class Interp:
 
     def assign(self, target, v, env):
         if isinstance(target, ast.Name):
-            env[target.id] = v
+            if target.id in env.get("__globalnames__", ()):
+                self.globals[target.id] = v
+            else:
+                env[target.id] = v
         elif isinstance(target, (ast.Tuple, ast.List)):
             vs = list(self.iterate(v))
             if len(vs) != len(target.elts):
@@ -233,7 +239,7 @@ class Interp:
         if name in HOST_TYPES:
             return HOST_TYPES[name]
         if name in ("isinstance", "hasattr", "len", "any", "all", "repr", "sorted", "min", "max",
-                    "enumerate", "zip", "range", "abs", "getattr"):
+                    "enumerate", "zip", "range", "abs", "getattr", "filter", "map"):
             return ("builtin", name)
         if name == "NotImplemented":
             return NotImplemented
@@ -576,6 +582,8 @@ class Interp:
                 return f[1].sub(*args, **kwargs)
             if tag == "exc":
                 return Record(f[1], {"args": tuple(args)})
+            if tag == "host":
+                return f[1](*args, **kwargs)
         raise AnalysisError(f"{self.name}: call of {f!r} is outside the subset")
 
     def builtin(self, name, args, kwargs):
@@ -587,6 +595,8 @@ class Interp:
                     if isinstance(obj, Record) and obj.cls_name == x.name:
                         return True
                 elif isinstance(x, type):
+                    if x is type and isinstance(obj, ClassRef):
+                        return True
                     if not isinstance(obj, (Record, ClassRef, ModuleRef)) and isinstance(obj, x):
                         return True
                 else:
@@ -630,6 +640,14 @@ class Interp:
             return list(zip(*[self.iterate(a) for a in args]))
         if name == "range":
             return list(range(*args))
+        if name == "filter":
+            fn, it = args
+            if fn is None:
+                return [x for x in self.iterate(it) if self.truth(x)]
+            return [x for x in self.iterate(it) if self.truth(self.apply(fn, [x], {}))]
+        if name == "map":
+            fn = args[0]
+            return [self.apply(fn, list(xs), {}) for xs in zip(*[self.iterate(a) for a in args[1:]])]
         raise AnalysisError(f"{self.name}: builtin {name}")
 
 
